@@ -264,6 +264,7 @@ JOBS = [
                   (r'Utility::readarray<pixel_t, pixel_t, true>\s*\(_file, &\(_data\[iy - in\]\[0\]\), xs1\);', 'geoid_read_pixels(self, iy - in, 0, xs1);'),
                   (r'Utility::readarray<pixel_t, pixel_t, true>\s*\(_file, &\(_data\[iy - in\]\[xs1\]\), _xsize - xs1\);', 'geoid_read_pixels(self, iy - in, xs1, _xsize - xs1);')],
         description='area cache: every cached pixel is the raster pixel rawval will look for there, rows complete, reads inside their raster row (all rows: loop contract)'),
+    Job('Geoid.CacheAll', 'Geoid::CacheAll', ['C20', 'C14'], replace=[('Geoid::CacheArea', dict(may_throw=True))], description='full cache = the area cache of the whole sphere'),
     Job('Geoid.height.history', 'Geoid::height', ['C20'], timeout=900, unwind=13, sat='cadical', harness='history', enforce=False,
         replace=[('Geoid::rawval', dict(may_throw=True)), ('Math::AngNormalize', dict(ghost=False)), 'Math::LatFix'],
         # the lemma is stated for bilinear interpolation (its harness assumes !_cubic): the twelve stencil reads of the cubic branch are outside it
